@@ -523,6 +523,11 @@ func (c *CaseResult) Compare() {
 
 // Apply records the model's verdict on a case.
 func (c *CaseResult) Apply(v CoqVerdict) {
+	c.Obs = Canon(c.Obs)
+	if v.Unmodelled != "" {
+		c.Unmodelled = v.Unmodelled
+		return
+	}
 	c.Tags = v.Tags
 	c.Agree = v.Agree
 	c.Obs = Canon(c.Obs)
